@@ -32,7 +32,7 @@ let show_send s = match s with
       (hex_of_str (join [n_of_int 32] scopes)) (show_secret grant)
 let show_result r = match r with
   | RResp true -> "=401" | RResp false -> "=ok"
-  | RErr ENoCred -> "=nocred" | RErr EMissing -> "=missing" | RErr EFetch -> "=fetch" | RErr ERewind -> "=rewind" | RErr ETransport -> "=transport"
+  | RErr ENoCred -> "=nocred" | RErr EMissing -> "=missing" | RErr EFetch -> "=fetch" | RErr ERewind -> "=rewind" | RErr ETransport -> "=transport" | RErr ECred -> "=crederr"
   | RBad -> "=BAD"
 
 let parse_answer t =
@@ -41,6 +41,7 @@ let parse_answer t =
   | 'U' -> A401 (str_of_hex (String.sub t 1 (String.length t - 1)))
   | 'T' -> ATok (n_of_int (int_of_string (String.sub t 1 (String.length t - 1))))
   | 'F' -> AFail
+  | 'S' -> AShare (n_of_int (int_of_string (String.sub t 1 (String.length t - 1))))
   | 'X' -> AErr
   | _ -> failwith "answer"
 
@@ -76,6 +77,8 @@ let () =
            let f = next () in
            (h, { c_user = f.[0] = '1'; c_pass = f.[1] = '1'; c_refresh = f.[2] = '1'; c_access = f.[3] = '1' })) in
          let key k = List.map (fun c -> n_of_int (Char.code c)) (List.init (String.length k) (String.get k)) in
+         let nerr = next_int () in
+         let errs = next_n nerr (fun () -> n_of_int (next_int ())) in
          let np = next_int () in
          let ptable = next_n np (fun () ->
            let hdr = str_of_hex (next ()) in
@@ -87,13 +90,13 @@ let () =
          let nreq = next_int () in
          let hist = next_n nreq (fun () ->
            let h = n_of_int (next_int ()) in
-           let body = (match next () with "none" -> BNone | "rewind" -> BRewindable | "once" -> BOnce | _ -> failwith "body") in
+           let body = (match next () with "none" -> BNone | "rewind" -> BRewindable | "once" -> BOnce | "geterr" -> BGetBodyErr | _ -> failwith "body") in
            let hh = next_strs () in
            let gh = next_strs () in
            let nans = next_int () in
            let script = next_n nans (fun () -> parse_answer (next ())) in
            ({ rq_host = h; rq_hints_host = hh; rq_hints_global = gh; rq_body = body }, script)) in
-         let out = run_model fl oauth2 creds ptable hist in
+         let out = run_model fl oauth2 creds errs ptable hist in
          let bad = List.exists (fun (_, r) -> r = RBad) out
                    || List.exists (fun (_, script) -> List.exists (unjudged_header ptable) script) hist in
          if bad then Printf.printf "%s UNJUDGED\n" id
@@ -114,6 +117,104 @@ let () =
            | 'a' -> OAcquire g | 'd' -> ODone (g, v) | 'c' -> OCancelF g | 'r' -> OReadClosed (g, v)
            | 'x' -> OCtxDone g | _ -> failwith "once event") in
          Printf.printf "%s %s\n" id (if once_accepts evs then "ACCEPT" else "REJECT")
+       | "J" ->
+         (* J <flavour> <oauth2> ncred {<host> <UPRA>}* np {ptable}* <host> <body> nh <hex>* ng <hex>*
+              <osch> <otok1> n2 {<hexkey> <tok>}* nans <ans>*
+            one Client.Do call of a concurrent mix, with what the cache told it (Model/AuthConc.v) *)
+         let fl = (match next () with "none" -> FNone | "shared" -> FShared | "single" -> FSingle | _ -> failwith "flavour") in
+         let oauth2 = (next () = "1") in
+         let ncred = next_int () in
+         let creds = next_n ncred (fun () ->
+           let h = n_of_int (next_int ()) in
+           let f = next () in
+           (h, { c_user = f.[0] = '1'; c_pass = f.[1] = '1'; c_refresh = f.[2] = '1'; c_access = f.[3] = '1' })) in
+         let key k = List.map (fun c -> n_of_int (Char.code c)) (List.init (String.length k) (String.get k)) in
+         let nerr = next_int () in
+         let errs = next_n nerr (fun () -> n_of_int (next_int ())) in
+         let np = next_int () in
+         let ptable = next_n np (fun () ->
+           let hdr = str_of_hex (next ()) in
+           let sch = (match next () with "basic" -> SchBasic | "bearer" -> SchBearer | _ -> SchUnknown) in
+           let realm = str_of_hex (next ()) in
+           let service = str_of_hex (next ()) in
+           let scope = str_of_hex (next ()) in
+           (hdr, (sch, [(key "realm", realm); (key "service", service); (key "scope", scope)]))) in
+         let h = n_of_int (next_int ()) in
+         let body = (match next () with "none" -> BNone | "rewind" -> BRewindable | "once" -> BOnce | _ -> failwith "body") in
+         let hh = next_strs () in
+         let gh = next_strs () in
+         let secret_of t =
+           let rest = String.sub t 1 (String.length t - 1) in
+           (match t.[0] with
+            | 'B' -> SBasicTok (n_of_int (int_of_string rest))
+            | 'A' -> SAccess (n_of_int (int_of_string rest))
+            | 'I' -> (match String.split_on_char '.' rest with
+                      | [a; b] -> SIssued (n_of_int (int_of_string a), n_of_int (int_of_string b))
+                      | _ -> failwith "secret")
+            | _ -> failwith "secret") in
+         let opt_secret t = if t = "-" then None else Some (secret_of t) in
+         let osch = (match next () with "basic" -> Some SchBasic | "bearer" -> Some SchBearer | "unknown" -> Some SchUnknown | _ -> None) in
+         let otok1 = opt_secret (next ()) in
+         let n2 = next_int () in
+         let tbl2 = next_n n2 (fun () -> let k = str_of_hex (next ()) in let t = opt_secret (next ()) in (k, t)) in
+         let otok2 k = (try List.assoc k tbl2 with Not_found -> None) in
+         let nans = next_int () in
+         let script = next_n nans (fun () -> parse_answer (next ())) in
+         let rq = { rq_host = h; rq_hints_host = hh; rq_hints_global = gh; rq_body = body } in
+         let cf = { cf_flavour = fl; cf_oauth2 = oauth2; cf_creds = lookup_cred creds; cf_cred_err = (fun x -> List.mem x errs) } in
+         if List.exists (unjudged_header ptable) script then Printf.printf "%s UNJUDGED\n" id else
+         let ((evs, op), r) = do_request_rd clean_scopes (parse_with ptable) cf rq osch otok1 otok2 script in
+         if r = RBad then Printf.printf "%s UNJUDGED\n" id else
+         let ops = (match op, fl with
+           | _, FNone | None, _ -> ""
+           | Some ((s, k), v), _ ->
+             Printf.sprintf " +%s:%s:%s" (match s with SchBasic -> "basic" | SchBearer -> "bearer" | SchUnknown -> "unknown")
+               (hex_of_str k) (show_secret v)) in
+         Printf.printf "%s %s%s\n" id
+           (String.concat " " (List.map (fun (s, _) -> show_send s) evs @ [show_result r])) ops
+       | "RD" ->
+         (* RD <hexfrom> <hexto> <status> : a redirect follow-up made by net/http *)
+         let a = str_of_hex (next ()) in
+         let c = str_of_hex (next ()) in
+         let st = n_of_int (next_int ()) in
+         let flags = !toks in
+         let noauth = List.mem "noauth" flags and nobody = List.mem "nobody" flags in
+         Printf.printf "%s %s %s\n" id
+           (if noauth then "AUTH-STRIPPED" else if keeps_authorization a c then "AUTH-KEPT" else "AUTH-STRIPPED")
+           (if nobody then "BODY-DROPPED" else if keeps_body st then "BODY-KEPT" else "BODY-DROPPED")
+       | "OS" ->
+         (* OS nev ev* : the visible events of an Once execution (a<g> f starts, c<g> f ends cancelled,
+            d<g>.<v> f ends with a result, r<g>.<v> result received, x<g> gave up), replayed on the slot
+            machine generated from once.go; prints the slot at the end *)
+         let n = next_int () in
+         let raw = next_n n (fun () -> next ()) in
+         let gnum t = let body = String.sub t 1 (String.length t - 1) in
+           n_of_int (int_of_string (List.hd (String.split_on_char '.' body))) in
+         let len_taken i = List.length (List.nth paths_taken i) in
+         let rec int_of_nat' x = int_of_nat x in
+         let idx a l = (match path_with a l with Some i -> i | None -> failwith "no such path") in
+         let entered = Hashtbl.create 8 in
+         let steps = Hashtbl.create 8 in   (* remaining SAct steps of a caller inside f *)
+         let evs = List.concat_map (fun t ->
+           let g = gnum t in
+           match t.[0] with
+           | 'a' ->
+             (* the path is decided by how this caller's f ends *)
+             let cancel = List.exists (fun u -> u.[0] = 'c' && gnum u = g) raw in
+             let i = idx (if cancel then AHandBack else AClose) paths_taken in
+             Hashtbl.replace entered g true;
+             Hashtbl.replace steps g (len_taken (int_of_nat' i) - 1);
+             [SEnter g; STake (g, i); SAct g]                 (* ... up to the call of f *)
+           | 'c' | 'd' ->
+             let k = (try Hashtbl.find steps g with Not_found -> 0) in
+             List.init k (fun _ -> SAct g)
+           | 'r' -> [SEnter g; SReadClosed (g, idx ARet paths_closed); SAct g]
+           | 'x' -> [SEnter g; SCtxDone g]
+           | _ -> failwith "once event") raw in
+         Printf.printf "%s %s\n" id
+           (match once_slot_final evs with
+            | None -> "REJECT"
+            | Some SFree -> "ACCEPT free" | Some SClosed -> "ACCEPT closed" | Some (STaken _) -> "ACCEPT taken")
        | "KS" ->
          (* KS ncalls {g host scheme hexkey}* nev ev* : a recorded concurrent Set execution *)
          let ncalls = next_int () in
